@@ -28,7 +28,8 @@ ASSUMPTIONS = ['time is the agent\'s own reading of time.time_ns (virtual clock)
                'must-collect is asserted single-threaded']
 REQUIRE = {'hits_checked': 5000, 'refused_by_count': 200, 'refused_by_period': 200, 'refused_by_window': 100,
            'boundary_hits': 50, 'gated_cases': 30, 'hostile_schedules': 30,
-           'overlap_cases': 30, 'hits_while_collection_open': 30, 'interpose_points': 15}
+           'overlap_cases': 30, 'hits_while_collection_open': 30, 'interpose_points': 15,
+           'overlap_cases_with_condition': 8, 'sequential_probe_hits': 60}
 T0 = 1_700_000_000_000_000_000
 MS = 1_000_000
 
@@ -435,16 +436,25 @@ class HoldGate:
         self.release = threading.Event()
         self.timed_out = False
         self._seen = False
+        self.cond = True
 
-    def __str__(self):
+    def _park_once(self):
         if self.hold and not self._seen:
             self._seen = True
             self.parked.set()
             if not self.release.wait(4):
                 self.timed_out = True
+
+    def __str__(self):
+        self._park_once()
         return 'hold'
 
     __repr__ = __str__
+
+    def check(self):
+        """Used as the tracepoint's condition: the hit is parked while its condition is being evaluated."""
+        self._park_once()
+        return self.cond
 
 
 def case_overlap(seed, out, spec, wd):
@@ -458,11 +468,14 @@ def case_overlap(seed, out, spec, wd):
     fp = r.pick([0, 1000, 1000, 100])
     kind = r.pick(['snapshot', 'snapshot', 'log'])
     cfg = {'fire_count': fc, 'fire_period': fp}
+    # some tracepoints carry a condition, and a hit can be parked while its condition is evaluated (then rejected)
+    use_cond = r.chance(0.4)
+    condition = 'gate.check()' if use_cond else None
     if kind == 'log':
         cfg['log_msg'] = 'o {gate}'
-        trig = direct_trigger('tp', base, line, 'Log', cfg)
+        trig = direct_trigger('tp', base, line, 'Log', cfg, condition=condition)
     else:
-        trig = direct_trigger('tp', base, line, 'Snapshot', cfg)
+        trig = direct_trigger('tp', base, line, 'Snapshot', cfg, condition=condition)
     rig = Rig(custom={}, host_dir=wd, plugins=[plugins.RecLogger()])
     rig.install([trig])
     n = r.randrange(3, 7)
@@ -473,11 +486,16 @@ def case_overlap(seed, out, spec, wd):
             t += r.pick([0, 1, fp // 10 if fp else 5, fp - 1 if fp else 3, fp, fp + 1, fp * 3 // 2 + 7, fp * 2 + 100,
                          -3, -1])
             # (a small step backwards: a thread whose event began a little earlier reaches the limiter a little later)
-        steps.append({'t_ms': max(t, 0), 'hold': r.chance(0.5), 'release_after': None})
+        steps.append({'t_ms': max(t, 0), 'hold': r.chance(0.5), 'release_after': None,
+                      'condition_true': (not use_cond) or r.chance(0.5)})
     for i, st in enumerate(steps):
         if st['hold']:
             st['release_after'] = r.randrange(i, n) if r.chance(0.7) else n - 1
     gates = [HoldGate(st['hold']) for st in steps]
+    for g, st in zip(gates, steps):
+        g.cond = st['condition_true']
+    probe_n = r.randrange(1, 4)
+    before_probe = [None]
     go = [threading.Event() for _ in steps]
     done = [threading.Event() for _ in steps]
     logged_at = []
@@ -518,7 +536,15 @@ def case_overlap(seed, out, spec, wd):
             g.release.set()
         for th in ths:
             th.join(20)
-        return any(th.is_alive() for th in ths)
+        if any(th.is_alive() for th in ths):
+            return True
+        # everything has settled: whatever budget is left must be usable by later, well separated, sequential hits
+        before_probe[0] = len(rig.push.pushed) if kind == 'snapshot' else len(logged_at)
+        t_end = max(st['t_ms'] for st in steps)
+        for j in range(probe_n):
+            clock.set_virtual(T0 + (t_end + (j + 1) * (2 * fp + 1000)) * MS)
+            mod.leaf(HoldGate(False), True)
+        return False
 
     try:
         hung, exc = rig.run(body)
@@ -536,6 +562,22 @@ def case_overlap(seed, out, spec, wd):
     if hung:
         out.inconc('C04 overlap threads did not finish')
         return
+    n_true = sum(1 for st in steps if st['condition_true'])
+    witness['conditional'] = use_cond
+    witness['sequential_hits_afterwards'] = probe_n
+    if before_probe[0] is not None and not stuck:
+        got_probe = len(got_ts) - before_probe[0]
+        want_probe = probe_n if fc == -1 else max(0, min(probe_n, fc - before_probe[0]))
+        if got_probe < want_probe:
+            out.violation('ratelimit:due-hit-not-collected',
+                          'after all overlapping hits had finished (%d collected, fire_count=%d) %d later sequential hits '
+                          '(each more than fire_period apart) produced %d collections instead of %d: a finished or '
+                          'rejected hit still counts' % (before_probe[0], fc, probe_n, got_probe, want_probe),
+                          witness, replay)
+        out.count('sequential_probe_hits', probe_n)
+        got_ts_all, got_ts = got_ts, got_ts[:before_probe[0]]
+    if use_cond:
+        out.count('overlap_cases_with_condition')
     if fc != -1 and len(got_ts) > fc:
         out.violation('ratelimit:concurrent-count-exceeded', '%d collections with fire_count=%d while earlier '
                                                              'collections were still open' % (len(got_ts), fc),
@@ -546,12 +588,13 @@ def case_overlap(seed, out, spec, wd):
                           'collections %.3f ms apart with fire_period=%d ms (an earlier collection was still open)' % (
                               (b - a) / MS, fp), witness, replay)
             break
-    if not got_ts:
+    if not got_ts and not use_cond:
         out.violation('ratelimit:due-hit-not-collected', 'no hit collected although the first one is within every limit',
                       witness, replay)
-    elif fc == -1 and fp == 0 and len(got_ts) != n and not stuck:
+    elif fc == -1 and fp == 0 and len(got_ts) != n_true and not stuck:
         out.violation('ratelimit:due-hit-not-collected', 'unlimited tracepoint (fire_count=-1, fire_period=0): %d of %d '
-                                                         'hits collected' % (len(got_ts), n), witness, replay)
+                                                         'hits whose condition holds were collected' % (
+                                                             len(got_ts), n_true), witness, replay)
     open_overlaps = sum(1 for i, st in enumerate(steps) if st['hold'] and st['release_after'] is not None and
                         st['release_after'] > i)
     out.count('overlap_cases')
